@@ -101,6 +101,8 @@ pub struct Case {
 // (the last four start like a directive name: `else_x is a macro usage, not `else followed by _x)
 /// the maker macro of `PpCfg::define_via` (never in the pool: only `undefineall removes it)
 pub const MAKER: &str = "MK_DEFINE";
+/// the remover macro of `PpCfg::define_via` (`define RM_UNDEF(n) `undef n; never in the pool)
+pub const REMOVER: &str = "RM_UNDEF";
 const MACRO_NAMES: &[&str] = &["MA", "MB", "MC", "MD", "ME", "wire", "begin", "M_f", "else_x", "endif_1", "elsif_y", "include_w"];
 // formal names: plain ones; names of compiler directives (only *macro* names may not be such); names with a '$'
 const FORMAL_SETS: &[&[&str]] = &[&["x", "y", "p_a", "fmt"], &["x", "y", "p_a", "fmt"], &["line", "define", "pragma", "undef"], &["a$b", "x$", "n$1", "_q"]];
@@ -316,7 +318,7 @@ impl<'a, 'b> G<'a, 'b> {
         let cands: Vec<String> = self
             .table
             .keys()
-            .filter(|k| k.as_str() != MAKER && k.as_str() != "INCB")
+            .filter(|k| k.as_str() != MAKER && k.as_str() != REMOVER && k.as_str() != "INCB")
             .filter(|k| match below {
                 Some(b) => macro_rank(k) < macro_rank(b),
                 None => true,
@@ -706,6 +708,28 @@ impl<'a, 'b> G<'a, 'b> {
                     let it = self.text_item(live);
                     out.push(it);
                 }
+                1 if self.cfg.define_via && live && self.t.chance(1, 5) => {
+                    // an `undef produced by expanding the remover macro (seed C11e: the table returned by the nested run
+                    // over an expansion must replace, not extend, the current one)
+                    if !matches!(self.table.get(REMOVER), Some(Some(_))) {
+                        let id = self.uid();
+                        let remover = MacroDef {
+                            id,
+                            name: REMOVER.to_string(),
+                            formals: vec![Formal { name: "n".to_string(), default: None }],
+                            body: Some(vec![BodyTok::Tok("`undef".to_string()), BodyTok::Sp, BodyTok::Formal(0)]),
+                            trailing_comment: None,
+                        };
+                        self.table.insert(REMOVER.to_string(), Some(MDef { def: remover.clone(), origin: DefOrigin::File(self.cur_file) }));
+                        let ws = self.nl();
+                        out.push(Item::Define(remover, ws));
+                    }
+                    let name = self.t.pick_str(MACRO_NAMES).to_string();
+                    self.table.remove(&name);
+                    let usage = Usage { name: REMOVER.to_string(), args: Some(vec![vec![ArgTok::Tok(name.clone())]]), ws_before_paren: String::new() };
+                    let ws = self.nl();
+                    out.push(Item::UndefVia(usage, name, ws));
+                }
                 1 if self.cfg.define_via && live && self.t.chance(1, 3) => {
                     // a `define produced by expanding the maker macro
                     if !matches!(self.table.get(MAKER), Some(Some(_))) {
@@ -926,7 +950,7 @@ pub fn ensure_trailing_newline(out: &mut Vec<Item>) {
         Some(Item::Kept(_, ws)) | Some(Item::Define(_, ws)) | Some(Item::Undef(_, ws)) | Some(Item::UndefineAll(ws)) | Some(Item::Resetall(ws)) => !ws.ends_with('\n'),
         Some(Item::Cond(c)) => !c.ws_after_endif.ends_with('\n'),
         Some(Item::Include { ws_after, .. }) => !ws_after.ends_with('\n'),
-        Some(Item::Use(_, ws)) | Some(Item::DefineVia(_, _, ws)) => !ws.ends_with('\n'),
+        Some(Item::Use(_, ws)) | Some(Item::DefineVia(_, _, ws)) | Some(Item::UndefVia(_, _, ws)) => !ws.ends_with('\n'),
         Some(Item::FileMacro(ws)) => !ws.ends_with('\n'),
         Some(Item::LineMacro { ws_after, .. }) => !ws_after.ends_with('\n'),
     };
@@ -940,7 +964,7 @@ pub fn ensure_trailing_newline(out: &mut Vec<Item>) {
             Some(Item::Kept(_, ws)) | Some(Item::Define(_, ws)) | Some(Item::Undef(_, ws)) | Some(Item::UndefineAll(ws)) | Some(Item::Resetall(ws)) => ws.push('\n'),
             Some(Item::Cond(c)) => c.ws_after_endif.push('\n'),
             Some(Item::Include { ws_after, .. }) => ws_after.push('\n'),
-            Some(Item::Use(_, ws)) | Some(Item::DefineVia(_, _, ws)) => ws.push('\n'),
+            Some(Item::Use(_, ws)) | Some(Item::DefineVia(_, _, ws)) | Some(Item::UndefVia(_, _, ws)) => ws.push('\n'),
             Some(Item::FileMacro(ws)) => ws.push('\n'),
             Some(Item::LineMacro { ws_after, .. }) => ws_after.push('\n'),
             None => {}
